@@ -269,3 +269,17 @@ Proof.
   destruct (F f Hf) as (st & fin & C & _ & FS & _). exists st, fin. split; [exact C|exact FS].
 Qed.
 Print Assumptions C09_source_ts_read_framing_statuses.
+
+(* the statuses of the column-slice reader from the source: for EVERY byte stream without bit arrays - well-formed, truncated,
+   corrupt in any field - sbdf_cs_read (no allocation failing) returns exactly the status of the L1 model's cs_read (Slice.v):
+   OK where the model accepts, and where it refuses the model's error code: MAGIC_NUMBER_MISSING, UNEXPECTED_SECTION_ID,
+   UNKNOWN_VALUEARRAY_ENCODING, UNKNOWN_TYPEID, INVALID_SIZE for any negative count or length, OUT_OF_MEMORY for a property
+   count or a string length that cannot be allocated, IO wherever the stream ends early - anywhere in the values, the count,
+   a property's name or a property's values (cs_st_model: the status function the source theorem uses is the model's status). *)
+From Sbdf Require Import Slice.
+Theorem C09_source_cs_read_status_is_the_models : forall rf rp fo po k sx m h, k < 0 -> Forall byte sx -> cs_nobit sx ->
+  exists f0, forall f, (f0 <= f)%nat -> exists st fin,
+    callC prog_env f prog_sbdf_cs_read [VPtr rf fo; VPtr rp po] m k sx h = OReturn (VInt st) fin /\
+    match Slice.cs_read false None sx with Ok _ => st = SBDF_OK | Err e => st = e end.
+Proof. exact cs_read_status_is_the_models. Qed.
+Print Assumptions C09_source_cs_read_status_is_the_models.
